@@ -74,3 +74,15 @@ package ocirequest
 //@   requires req != nil && 0 <= req.Kind && req.Kind <= ReqCatalogList
 //@   modifies nothing
 //@   ensures[error-means-empty] result.2 != nil ==> result.0 == "" && result.1 == ""
+
+// ---------------------------------------------------------------------------
+// C04 / C01: the Content-Range codec. RangeString writes the half-open Go
+// range [start, end) in the inclusive wire form; ParseRange reads it back.
+// The lemma is over the real bodies of both functions (executed symbolically
+// as specification functions; itoa/atoi are the decimal printer and parser as
+// mutually inverse uninterpreted functions).
+//@ lemma rangeCodecRoundTrip(start int64, end int64) =
+//@   0 <= start && start <= end ==>
+//@     ParseRange(RangeString(start, end)).0 == start && ParseRange(RangeString(start, end)).1 == end && ParseRange(RangeString(start, end)).2
+//@ func RangeString
+//@   ensures[round-trip] 0 <= start && start <= end ==> ParseRange(result).0 == start && ParseRange(result).1 == end && ParseRange(result).2
